@@ -119,7 +119,7 @@ impl Prop for C06 {
         let thorough = cx.env.tier == Tier::Thorough;
         // a quarter of the workspaces is small enough for ALL interleavings of the apply phase to be forced
         let small = ch.chance(1, 4);
-        let o = WsGenOpts { fail_chance: 5, max_patches: if small { 3 } else if thorough { 10 } else { 6 }, max_files: if small { 3 } else { 8 }, strict_reject_dirs: true, alt_name_chance: 1, second_failure: true, allow_hard_error: true, ..Default::default() };
+        let o = WsGenOpts { fail_chance: 5, max_patches: if small { 3 } else if thorough { 10 } else { 6 }, max_files: if small { 3 } else { 8 }, alt_name_chance: 1, second_failure: true, allow_hard_error: true, ..Default::default() };
         let ws = gen_ws(ch, cx, &o);
         let mut opts = gen_opts(ch, true);
         opts.threads = *ch.pick(&[2usize, 2, 3, 4, 8, 16]);
@@ -546,7 +546,7 @@ impl Prop for C07 {
     }
     fn build(&self, ch: &mut Chooser, cx: &mut CaseCtx) -> C07Case {
         if ch.chance(1, 4) {
-            let o = WsGenOpts { fail_chance: 0, max_patches: 8, max_files: 6, alt_name_chance: 6, strict_reject_dirs: true, ..Default::default() };
+            let o = WsGenOpts { fail_chance: 0, max_patches: 8, max_files: 6, alt_name_chance: 6, ..Default::default() };
             let ws = gen_ws(ch, cx, &o);
             return C07Case::Cli { ws, threads: *ch.pick(&[2usize, 3, 4, 8]) };
         }
@@ -705,7 +705,7 @@ impl Prop for C18 {
         200
     }
     fn build(&self, ch: &mut Chooser, cx: &mut CaseCtx) -> C18Case {
-        let o = WsGenOpts { fail_chance: 4, max_patches: 4, max_files: 4, max_lines: 12, strict_reject_dirs: true, ..Default::default() };
+        let o = WsGenOpts { fail_chance: 4, max_patches: 4, max_files: 4, max_lines: 12, ..Default::default() };
         let ws = gen_ws(ch, cx, &o);
         let mut opts = gen_opts(ch, true);
         opts.threads = *ch.pick(&[1usize, 1, 2, 4]);
